@@ -49,6 +49,18 @@ def _mag(b_int, exp10):
     return float(Fraction(b_int) * Fraction(10) ** exp10)
 
 
+def _substances_arg(form):
+    """the `substances` argument of a mapping form: not given / string of keys / key -> Substance"""
+    subs = form.get("subs") or {"kind": "none"}
+    if subs["kind"] == "none":
+        return {}
+    if subs["kind"] == "str":
+        return {"substances": " ".join(subs["keys"])}
+    from collections import OrderedDict
+    from chempy import Substance
+    return {"substances": OrderedDict((k, Substance.from_formula(k)) for k in subs["keys"])}
+
+
 def _call_ions(ions, keys, form):
     """ions: [(b_int, z)]; returns the observation dict (value in mol/kg)."""
     from chempy.electrolytes import ionic_strength
@@ -76,7 +88,7 @@ def _call_ions(ions, keys, form):
     elif f == "dict":
         from collections import OrderedDict
         args = (OrderedDict((k, _mag(b, form["exp10"])) for k, (b, _) in zip(keys, ions)),)
-        kw = {}
+        kw = _substances_arg(form)
     elif f == "qdict":
         from collections import OrderedDict
         d = OrderedDict()
@@ -86,7 +98,7 @@ def _call_ions(ions, keys, form):
             else:
                 d[k] = _mag(b, form["exp10b"]) * physq.UNITS[form["unit2"]]
         args = (d,)
-        kw = {}
+        kw = _substances_arg(form)
     else:
         raise core.MachineryFailure("unknown form %r" % (f,))
     o = physq.observe(lambda: ionic_strength(*args, **kw), WARN_WORDS)
@@ -102,7 +114,9 @@ def _call_ions(ions, keys, form):
 
 
 def _form_name(form):
-    return form["form"] + (":" + form["unit"] if form["unit"] != "none" else "")
+    subs = (form.get("subs") or {}).get("kind", "none")
+    return form["form"] + (":" + form["unit"] if form["unit"] != "none" else "") + \
+        ("+substances-" + subs if subs != "none" else "")
 
 
 def _judge_ions(obs, exp, form):
@@ -151,7 +165,7 @@ def _backend(name):
     return {"default": None, "math": math}[name]
 
 
-def _call_dh(case, mode):
+def _call_dh(case, mode, omit=()):
     import chempy.electrolytes as el
     from chempy.units import default_units as u, default_constants as consts
     kind = case["in"]["kind"]
@@ -163,37 +177,41 @@ def _call_dh(case, mode):
         z = int(F(pt["z"]))
         A = float(F(pt["A"]))
         be = _backend(mode["backend"])
+        kw = {"backend": be}
+        if "I0" not in omit:
+            kw["I0"] = I0
+        if kind != "lim" and "C" not in omit:
+            kw["C"] = float(F(pt["C"]))
         if kind == "lim":
-            fn = lambda: el.limiting_log_gamma(IS, z, A, I0=I0, backend=be)
+            fn = lambda: el.limiting_log_gamma(IS, z, A, **kw)
         elif kind == "ext":
             a = physq.make(F(pt["a"]), mode["a"])
             B = physq.make(F(pt["B"]), mode["B"])
-            C = float(F(pt["C"]))
-            fn = lambda: el.extended_log_gamma(IS, z, a, A, B, C=C, I0=I0, backend=be)
+            fn = lambda: el.extended_log_gamma(IS, z, a, A, B, **kw)
         else:
-            C = float(F(pt["C"]))
-            fn = lambda: el.davies_log_gamma(IS, z, A, C=C, I0=I0, backend=be)
+            fn = lambda: el.davies_log_gamma(IS, z, A, **kw)
         unit = "1"
     elif kind in ("A", "B"):
         T = physq.make(F(pt["T"]), mode["T"])
         rho = physq.make(F(pt["rho"]), mode["rho"])
         eps = float(F(pt["eps"]))
         f = el.A if kind == "A" else el.B
-        if mode["mode"] == "plain":
-            fn = lambda: f(eps, T, rho)
-        else:
-            b0 = physq.make(F(pt["b0"]), mode["b0"])
-            kobj = consts if mode["consts"] else None
-            uobj = u if mode.get("uobj", True) else None
-            fn = lambda: f(eps, T, rho, b0=b0, constants=kobj, units=uobj)
+        kw = {}
+        if "b0" not in omit:
+            kw["b0"] = physq.make(F(pt["b0"]), mode["b0"])
+        if mode["mode"] != "plain":
+            kw["constants"] = consts if mode["consts"] else None
+            kw["units"] = u if mode.get("uobj", True) else None
+        fn = lambda: f(eps, T, rho, **kw)
         unit = "1" if kind == "A" else "1/m"
     else:
         IS = float(F(pt["IS"]))
         nus = [float(F(x)) for x in pt["nus"]]
         zs = [int(F(x)) for x in pt["zs"]]
         sizes = [float(Fraction(int(x)) * Fraction(10) ** case["in"]["size_exp10"]) for x in pt["pm"]]
-        T, eps, rho, C = float(F(pt["T"])), float(F(pt["eps"])), float(F(pt["rho"])), float(F(pt["C"]))
+        T, eps, rho = float(F(pt["T"])), float(F(pt["eps"])), float(F(pt["rho"]))
         be = _backend(mode["backend"])
+        ckw = {} if ("C" in omit or kind == "lap") else {"C": float(F(pt["C"]))}
         if mode["mode"] == "class":
             conc = [float(F(x)) for x in case["in"]["conc"]]
             if not conc or kind == "dap":
@@ -201,13 +219,14 @@ def _call_dh(case, mode):
             if kind == "lap":
                 fn = lambda: el.LimitingDebyeHuckelActivityProduct(nus, zs, T, eps, rho)(conc)
             else:
-                fn = lambda: el.ExtendedDebyeHuckelActivityProduct(nus, zs, sizes, T, eps, rho, C)(conc)
+                cargs = (ckw["C"],) if ckw else ()
+                fn = lambda: el.ExtendedDebyeHuckelActivityProduct(nus, zs, sizes, T, eps, rho, *cargs)(conc)
         elif kind == "lap":
             fn = lambda: el.limiting_activity_product(IS, nus, zs, T, eps, rho, backend=be)
         elif kind == "eap":
-            fn = lambda: el.extended_activity_product(IS, nus, zs, sizes, T, eps, rho, C=C, backend=be)
+            fn = lambda: el.extended_activity_product(IS, nus, zs, sizes, T, eps, rho, backend=be, **ckw)
         else:
-            fn = lambda: el.davies_activity_product(IS, nus, zs, sizes, T, eps, rho, C=C, backend=be)
+            fn = lambda: el.davies_activity_product(IS, nus, zs, sizes, T, eps, rho, backend=be, **ckw)
         unit = "1"
     o = physq.observe(fn, WARN_WORDS)
     out = dict(raised=o["raised"], exc=o["exc"], value=None, dims=None)
@@ -215,8 +234,8 @@ def _call_dh(case, mode):
         try:
             out["dims"] = physq.dims(o["value"])
             out["value"] = physq.magnitude_in(o["value"], unit) if (out["dims"] is not None) else float(o["value"])
-        except Exception as e:
-            out["raised"] = True
+        except Exception as e:  # the result cannot be expressed in the documented unit
+            out["projection_failed"] = True
             out["exc"] = "projection: %s: %s" % (type(e).__name__, e)
     return out
 
@@ -224,7 +243,8 @@ def _call_dh(case, mode):
 def _mode_name(mode):
     return mode["mode"] + ("+constants" if mode.get("consts") else "") + \
         ("-unitsarg" if mode.get("consts") and not mode.get("uobj", True) else "") + \
-        ("+" + mode["backend"] if mode.get("backend", "default") != "default" else "")
+        ("+" + mode["backend"] if mode.get("backend", "default") != "default" else "") + \
+        ("+defaults-implicit" if mode.get("implicit") else "")
 
 
 def replay_dh_case(case):
@@ -233,18 +253,20 @@ def replay_dh_case(case):
     rtol = float(physq.frac(exp["rtol"]))
     bad = []
     n = 0
-    for mode in case["in"]["modes"]:
-        obs = _call_dh(case, mode)
+    omits = case["in"].get("omits") or [[] for _ in case["in"]["modes"]]
+    for mode, omit in zip(case["in"]["modes"], omits):
+        obs = _call_dh(case, mode, omit)
         if obs is None:
             continue
         n += 1
         why = None
         if obs["raised"]:
             why = "raised"
+        elif obs.get("projection_failed") or (
+                obs["dims"] is not None and sorted(map(list, obs["dims"])) != sorted([d[0], float(d[1])] for d in exp["dim"])):
+            why = "dimension"
         elif not physq.close(obs["value"], want, rtol, atol=0.0):
             why = "value"
-        elif obs["dims"] is not None and obs["dims"] != [list(d) for d in exp["dim"]]:
-            why = "dimension"
         if why:
             obs = dict(obs)
             obs["expected_value"] = want
